@@ -80,13 +80,13 @@ def prod(
             out = _prod(numpoly.reshape(a, -1), axis=0)
             out = numpoly.reshape(out, (1,) * len(a.shape))
             return out
-        elif isinstance(axis, int):
+        elif isinstance(axis, (int, numpy.integer)):
             axis = [axis]
 
     if axis is None:
         out = _prod(numpoly.reshape(a, -1), axis=0)
 
-    elif isinstance(axis, int):
+    elif isinstance(axis, (int, numpy.integer)):
         out = _prod(a, axis=axis)
 
     else:
